@@ -1,7 +1,10 @@
 #!/usr/bin/env python3
 """C17 replay driver.  Runs INSIDE the sandbox made by ns_enter.sh (private mount namespace, overlayfs over
 /etc /usr /var ..., stand-in systemctl) and nowhere else: it refuses to start unless /etc, /usr and /var are the
-check's overlays.  For each behaviour of spec/gen/SetupGen.tla it
+check's overlays (layout "separate") or / is the check's single root overlay (layout "samefs": the tool's folder
+is /var/lib/waagent/verif-c17-setup on the SAME mount as /etc/azure, /usr/sbin, /usr/lib/azure-proxy-agent and
+/usr/lib/systemd/system, so link(2) between them succeeds; a probe at start-up proves it, or that it fails with
+EXDEV in the "separate" layout, and writes <scratch>/layout.json).  For each behaviour of spec/gen/SetupGen.tla it
 
   1. puts the file system in the behaviour's initial state with fresh random file contents per version
      (system locations, setup folder with the packaged files, Backup folder, sentinel files = "the rest"),
@@ -57,14 +60,31 @@ def sha_file(p):
     return h.hexdigest()
 
 
-def check_sandbox(S):
+SAMEFS_SETUP = "/var/lib/waagent/verif-c17-setup"
+
+
+def check_sandbox(S, layout):
     if os.environ.get("VERIF_C17_SANDBOX") != S:
         die("not started by ns_enter.sh")
+    if os.environ.get("VERIF_C17_LAYOUT", "separate") != layout:
+        die("ns_enter.sh built layout %r, the job wants %r" % (os.environ.get("VERIF_C17_LAYOUT"), layout))
     with open("/proc/self/mounts") as f:
         m = f.read()
-    for d in ("etc", "usr", "var"):
-        if not re.search(r"^verif-c17-%s /%s overlay .*upperdir=%s/ov/%s/up" % (d, d, re.escape(S), d), m, re.M):
-            die("/%s is not this run's overlay; refusing to run the setup tool" % d)
+    if layout == "samefs":
+        # chroot-ed into the single overlay: the mount table shows it at /, its upper layer on this run's tmpfs
+        if not re.search(r"^verif-c17-root / overlay .*lowerdir=/,upperdir=%s/ov/up," % re.escape(S), m, re.M):
+            die("/ is not this run's root overlay; refusing to run the setup tool")
+        if not re.search(r"^verif-c17-upper %s/ov tmpfs " % re.escape(S), m, re.M):
+            die("%s/ov is not this run's tmpfs; refusing to run the setup tool" % S)
+        if os.stat("/").st_dev != os.stat("/etc").st_dev or os.stat("/").st_dev != os.stat("/usr/sbin").st_dev \
+                or os.stat("/").st_dev != os.stat("/var/lib").st_dev:
+            die("/etc, /usr/sbin, /var/lib are not on the root overlay")
+    elif layout == "separate":
+        for d in ("etc", "usr", "var"):
+            if not re.search(r"^verif-c17-%s /%s overlay .*upperdir=%s/ov/%s/up" % (d, d, re.escape(S), d), m, re.M):
+                die("/%s is not this run's overlay; refusing to run the setup tool" % d)
+    else:
+        die("unknown layout %r" % layout)
     with open("/usr/bin/systemctl", "rb") as f, open(os.path.join(HERE, "systemctl"), "rb") as g:
         if f.read() != g.read():
             die("/usr/bin/systemctl is not the stand-in")
@@ -77,9 +97,10 @@ class ToolTimeout(Exception):
 
 
 class World:
-    def __init__(self, S, setup_bin):
+    def __init__(self, S, setup_bin, layout="separate"):
         self.S = S
-        self.setup = os.path.join(S, "setup")
+        self.layout = layout
+        self.setup = SAMEFS_SETUP if layout == "samefs" else os.path.join(S, "setup")
         self.pa = os.path.join(self.setup, "ProxyAgent")
         self.bk = os.path.join(self.pa, "Backup")
         self.tool = os.path.join(self.setup, "proxy_agent_setup")
@@ -97,11 +118,57 @@ class World:
                          "cfg": os.path.join(self.bk, "Package", "proxy-agent.json"),
                          "ebpf": os.path.join(self.bk, "Package", "ebpf_cgroup.o"),
                          "unit": os.path.join(self.bk, "azure-proxy-agent.service")}
-        self.uppers = [(d, os.path.join(S, "ov", d, "up")) for d in sorted(os.listdir(os.path.join(S, "ov")))]
-        self.sibling = os.path.join(S, "sibling")
+        if layout == "samefs":
+            self.uppers = [("", os.path.join(S, "ov", "up"))]          # one upper layer for the whole root
+        else:
+            self.uppers = [("/" + d, os.path.join(S, "ov", d, "up")) for d in sorted(os.listdir(os.path.join(S, "ov")))]
+        # a neighbour of the tool's folder (same parent, same file system) that no command may touch
+        self.sibling = os.path.join(os.path.dirname(self.setup), "verif-c17-sibling") if layout == "samefs" \
+            else os.path.join(S, "sibling")
         self.env = dict(os.environ)
         self.env["VERIF_SYSTEMCTL_LOG"] = self.syslog
         self.env["PATH"] = os.path.join(S, "bin") + ":" + os.environ.get("PATH", "/usr/bin:/bin")
+
+    # ---- the environment dimension -----------------------------------------------------------
+    def probe_links(self):
+        """link(2) from the tool's Backup/Package folder into each system directory: must succeed for all four in the
+        "samefs" layout (vacuity guard: otherwise the layout does not exercise what it is for) and fail with EXDEV
+        for all four in the "separate" layout.  Leaves nothing behind."""
+        import errno
+        src_dir = os.path.join(self.bk, "Package")
+        os.makedirs(src_dir, exist_ok=True)
+        src = os.path.join(src_dir, "verif-c17-link-probe")
+        with open(src, "wb") as f:
+            f.write(b"probe")
+        res = {}
+        made = []
+        for loc in LOCS:
+            d = os.path.dirname(SYS_PATH[loc])
+            if not os.path.isdir(d):
+                top = d
+                while not os.path.isdir(os.path.dirname(top)):
+                    top = os.path.dirname(top)
+                os.makedirs(d)
+                made.append(top)
+            dst = os.path.join(d, "verif-c17-link-probe")
+            try:
+                os.link(src, dst)
+                same = os.path.samefile(src, dst)
+                os.unlink(dst)
+                res[d] = "linked" if same else "linked-but-not-the-same-inode"
+            except OSError as ex:
+                res[d] = errno.errorcode.get(ex.errno, str(ex.errno))
+        os.unlink(src)
+        for d in made:
+            shutil.rmtree(d)
+        shutil.rmtree(self.pa, ignore_errors=True)
+        want = "linked" if self.layout == "samefs" else "EXDEV"
+        with open(os.path.join(self.S, "layout.json"), "w") as f:
+            json.dump({"layout": self.layout, "setup_folder": self.setup, "link_into": res,
+                       "as_intended": all(v == want for v in res.values())}, f)
+        if any(v != want for v in res.values()):
+            die("layout %s: link from %s into the system directories gave %r, wanted %s everywhere"
+                % (self.layout, src_dir, res, want))
 
     # ---- concretisation -------------------------------------------------------------------
     def make_contents(self, rnd, versions):
@@ -211,7 +278,13 @@ class World:
         skip_files = set(SYS_PATH.values())
         for d, up in self.uppers:
             for root, dirs, files in os.walk(up):
-                rel = "/" + d + root[len(up):]
+                rel = d + root[len(up):]
+                if self.layout == "samefs":
+                    # the tool's folder is inside the overlay: it is listed below, with the scratch directory; the
+                    # mount points of ns_enter.sh (device nodes, /proc) are not files of the tool's world
+                    dirs[:] = [x for x in dirs if rel + "/" + x != self.setup and rel + "/" + x != "/proc"]
+                    if rel == "/dev":
+                        files = [x for x in files if x not in ("null", "zero", "urandom", "random")]
                 for n in dirs:
                     # a directory copied up from the lower layer carries trusted.overlay.origin; one without it
                     # was created inside the sandbox (the lower layers are live: never list the merged view)
@@ -235,16 +308,18 @@ class World:
                         items[p] = "t:%o:%d" % (stat.S_IFMT(st.st_mode), st.st_rdev)   # whiteouts, links, ...
         # the scratch directory outside the overlays
         pk = set(self.pkg_path.values())
-        for root, dirs, files in os.walk(self.S):
+        tops = [self.S] if self.setup.startswith(self.S + "/") else [self.S, self.setup]
+        for root, dirs, files in (x for top in tops for x in os.walk(top)):
             if root == self.S:
-                dirs[:] = [x for x in dirs if x not in ("ov", "bin")]
+                dirs[:] = [x for x in dirs if x not in ("ov", "bin", "root")]
             if root == self.pa:
                 dirs[:] = [x for x in dirs if x != "Backup"]
             for n in files:
                 fp = os.path.join(root, n)
                 if fp in pk or fp == self.syslog or fp == self.tool:
                     continue
-                if root == self.S and (n.startswith("job") or n.startswith("out") or n.startswith("strace")):
+                if root == self.S and (n.startswith("job") or n.startswith("out") or n.startswith("strace")
+                                       or n == "layout.json"):
                     continue
                 if root == self.setup and re.match(r"^setup.*\.log$", n):
                     continue                                   # the tool's own log
@@ -279,6 +354,16 @@ class World:
         if not tool_ok:
             o["rest"] = (o["rest"] if o["rest"] != "r0" else "changed:") + ",setup-tool-removed"
         o["exe_mode_x"] = bool(os.path.exists(SYS_PATH["exe"]) and os.access(SYS_PATH["exe"], os.X_OK))
+        # diagnostic, not judged: locations whose backup file IS the live file (one inode, two names)
+        shared = []
+        for l in LOCS:
+            try:
+                if os.path.samefile(SYS_PATH[l], self.bak_path[l]):
+                    shared.append(l)
+            except OSError:
+                pass
+        if shared:
+            o["bak_is_live_inode"] = shared
         return o
 
     def read_calls(self):
@@ -426,8 +511,10 @@ class World:
                     if sc != "creat" and not re.search(r"O_WRONLY|O_RDWR|O_CREAT|O_TRUNC|O_APPEND", args):
                         continue
                     tgt = paths[:1]
-                elif sc in ("rename", "renameat", "renameat2", "link", "linkat", "symlink", "symlinkat"):
-                    tgt = paths
+                elif sc in ("rename", "renameat", "renameat2"):
+                    tgt = paths                 # the old name disappears, the new one is replaced
+                elif sc in ("link", "linkat", "symlink", "symlinkat"):
+                    tgt = paths[-1:]            # only the new name is created; the file linked to is not altered
                 else:
                     tgt = paths[:1]
                 for p in tgt:
@@ -458,8 +545,10 @@ def main():
     with open(job_path) as f:
         job = json.load(f)
     S = job["scratch"]
-    check_sandbox(S)
-    w = World(S, job["setup_bin"])
+    layout = job.get("layout", "separate")
+    check_sandbox(S, layout)
+    w = World(S, job["setup_bin"], layout)
+    w.probe_links()
     argv_of = dict(ARGV)
     argv_of.update(job.get("argv", {}))
     def run_behaviour(b, timeout):
